@@ -35,6 +35,7 @@ Record step := mkStep {
 }.
 
 Record case := mkCase {
+  c_var : variants;            (* which form the repaired sites have in the library under test (probed) *)
   c_init : tree;
   c_rooted : option bool;
   c_steps : list step
@@ -79,29 +80,29 @@ Definition step_ok (s : step) (e : option err) (h0 h : heap) : bool :=
   && obool_eqb (rooted h) (s_rooted s)
   && enc_ok s h0 h.
 
-Fixpoint check_steps (l : list step) (h : heap) : bool :=
+Fixpoint check_steps (v : variants) (l : list step) (h : heap) : bool :=
   match l with
   | [] => true
   | s :: r =>
-    match observe_model (run_op (s_op s) h) with
-    | Some (e, h') => step_ok s e h h' && check_steps r h'
+    match observe_model (run_op_v v (s_op s) h) with
+    | Some (e, h') => step_ok s e h h' && check_steps v r h'
     | None => false
     end
   end.
 
 Definition case_ok (c : case) : bool :=
-  check_steps (c_steps c) (of_tree (c_init c) (c_rooted c)).
+  check_steps (c_var c) (c_steps c) (of_tree (c_init c) (c_rooted c)).
 
 (* diagnostics: what the model computes after each step *)
-Fixpoint run_steps (l : list step) (h : heap) : list (option (option err) * list Z * option bool) :=
+Fixpoint run_steps (v : variants) (l : list step) (h : heap) : list (option (option err) * list Z * option bool) :=
   match l with
   | [] => []
   | s :: r =>
-    match observe_model (run_op (s_op s) h) with
+    match observe_model (run_op_v v (s_op s) h) with
     | Some (e, h') =>
-      (Some e, match abs h' with Some t => enc_tree t | None => [] end, rooted h') :: run_steps r h'
+      (Some e, match abs h' with Some t => enc_tree t | None => [] end, rooted h') :: run_steps v r h'
     | None => [(None, [], None)]
     end
   end.
 
-Definition case_run (c : case) := run_steps (c_steps c) (of_tree (c_init c) (c_rooted c)).
+Definition case_run (c : case) := run_steps (c_var c) (c_steps c) (of_tree (c_init c) (c_rooted c)).
